@@ -192,7 +192,11 @@ func c09Next(g *prog.Gen, idx int, hist []*prog.Step) *prog.Op {
 		return &prog.Op{Kind: "getObject", Caller: caller, B: b, K: k}
 	case r < 92:
 		// half of the listings are read page by page (max-keys 1…3): the pages together must be the listing
-		return &prog.Op{Kind: "listVersions", Caller: caller, B: b, Max: []int{0, 0, 1, 2, 3}[g.R.Intn(5)]}
+		lo := &prog.Op{Kind: "listVersions", Caller: caller, B: b, Max: []int{0, 0, 1, 2, 3}[g.R.Intn(5)]}
+		if lo.Max > 0 && g.R.Chance(45) {
+			lo.Prefix = "/" // paged level by level with delimiter "/"
+		}
+		return lo
 	case r < 96:
 		return &prog.Op{Kind: "putVersioning", Caller: "root", B: b, On: g.R.Chance(60)}
 	case r < 98:
